@@ -355,10 +355,14 @@ func HelperQueryArithmeticAndLogical(queryOp *structs.QueryArithmetic, resMap ma
 		referenceMetricRes = resultLHS
 
 		if scalarValuePtr != nil {
+			// The scalar is the value of an expression. It takes the place of a constant: a comparison keeps
+			// the sample of the vector, whichever side the scalar is on.
+			scalarOp := *queryOp
+			scalarOp.ConstantOp = true
 			for groupID, tsLHS := range resultLHS.Results {
 				finalResult[groupID] = make(map[uint32]float64)
 				for timestamp, valueLHS := range tsLHS {
-					putils.SetFinalResult(queryOp, finalResult, groupID, timestamp, valueLHS, *scalarValuePtr, swapped)
+					putils.SetFinalResult(&scalarOp, finalResult, groupID, timestamp, valueLHS, *scalarValuePtr, swapped)
 				}
 			}
 
